@@ -166,6 +166,9 @@ impl PriceLevel {
     ) -> MatchResult {
         let mut result = MatchResult::new(taker_order_id, incoming_quantity);
         let mut remaining = incoming_quantity;
+        // Orders that cannot make progress (nothing displayed and nothing to replenish with);
+        // they are put back once the match is over so the loop cannot spin on them.
+        let mut set_aside = Vec::new();
 
         while remaining > 0 {
             if let Some(order_arc) = self.orders.pop() {
@@ -203,6 +206,11 @@ impl PriceLevel {
                     .record_execution(consumed, order_arc.price(), order_arc.timestamp());
 
                 if let Some(updated) = updated_order {
+                    if consumed == 0 && hidden_reduced == 0 {
+                        set_aside.push(updated);
+                        continue;
+                    }
+
                     if hidden_reduced > 0 {
                         self.hidden_quantity
                             .fetch_sub(hidden_reduced, Ordering::AcqRel);
@@ -240,6 +248,10 @@ impl PriceLevel {
             } else {
                 break;
             }
+        }
+
+        for order in set_aside {
+            self.orders.push(Arc::new(order));
         }
 
         result.remaining_quantity = remaining;
